@@ -1,6 +1,6 @@
 (* C05 property theorems ONLY (each closed by an already proved lemma) + assumptions. *)
 From Coq Require Import NArith List String Bool.
-From RV Require Import C05.Types C05.Model C05.Exempt C05.Table C05.Codec C05.Roundtrip C05.Whole C05.Run C05.WholeGen Gen.Descriptors.
+From RV Require Import C05.Types C05.Model C05.Exempt C05.Table C05.Codec C05.Roundtrip C05.Whole C05.Delta C05.Run C05.WholeGen Gen.Descriptors.
 Import ListNotations.
 Open Scope N_scope.
 
@@ -110,6 +110,33 @@ Example C05_whole_hypotheses_inhabited :
   mem_wf particle_size table example_mem /\ init_ok table empty_mem /\
   Forall (field_ok hdr_id end_id) (gen_view example_mem false) /\ List.length (gen_view example_mem false) = 121%nat.
 Proof. exact example_mem_wf. Qed.
+
+(* 8. DELTA SNAPSHOTS (Simulationarchive blobs k >= 1 = reb_binary_diff output_option 0 against snapshot 0).
+   delta fs1 fs2 = vanished fields of fs1 as headers with size 0, changed fields from fs2, new fields of fs2.
+   For every well-formed table, memories a (snapshot 0) and b (live state when the blob was written): reading
+   delta(view a, view b) into a gives the persisted view of b - ALSO when b lacks arrays that a has (reset_integrator,
+   integrator switch, MERCURIUS removal): the reader's semantics of a size-0 array field is realloc(ptr,0) and
+   count member := 0 (vanished_writes_values), so the writer omits the field again.  Hypotheses: absent arrays of b
+   are zero-length arrays (model convention), and fixed-size pointers present in a stay present in b (a vanished
+   fixed-size pointer is NOT restored faithfully by the C reader; outside the theorem).  (Fields between the header
+   and the function-pointer flag; the flag field writes no member, see whole_table_okb.) *)
+Theorem C05_delta_roundtrip : forall psz legacy fpid tbl, whole_table_okb legacy fpid tbl = true ->
+  forall a b, mem_wf psz tbl a -> mem_wf psz tbl b -> absent_normal tbl b -> fixed_kept tbl a b ->
+  flat_map (wdesc psz (rfields legacy tbl a (delta (flat_map (wdesc psz a) (live tbl)) (flat_map (wdesc psz b) (live tbl))))) (live tbl)
+  = flat_map (wdesc psz b) (live tbl).
+Proof. exact delta_roundtrip. Qed.
+Print Assumptions C05_delta_roundtrip.
+
+(* non-vacuity of 8 on the regenerated table: a holds a WHFast Jacobi array, b is the state after
+   reset_integrator(); the delta consists of the changed time and the vanished marker of field 104 *)
+Example C05_delta_hypotheses_inhabited :
+  mem_wf particle_size table example_a /\ mem_wf particle_size table (arrays_zero_length example_b) /\
+  absent_normal table (arrays_zero_length example_b) /\ fixed_kept table example_a (arrays_zero_length example_b) /\
+  In (mkfield 104 []) (delta (flat_map (wdesc particle_size example_a) (live table))
+                             (flat_map (wdesc particle_size (arrays_zero_length example_b)) (live table))) /\
+  List.length (delta (flat_map (wdesc particle_size example_a) (live table))
+                     (flat_map (wdesc particle_size (arrays_zero_length example_b)) (live table))) = 2%nat.
+Proof. exact example_delta. Qed.
 
 (* Non-vacuity: a DP7 descriptor with two bodies' worth of data satisfies desc_wf and is written. *)
 Example C05_hypotheses_inhabited :
